@@ -92,7 +92,12 @@ class Engine:
         self.comp_collect: Optional[List[Any]] = None
         self.comp_calls = 0
         self.fold_ordinal = 0
+        mentioned = " ".join(list(contract.types.values()) + list((contract.closure or {}).values()) + [contract.returns or ""])
         for ax in getattr(reg, "axioms", {}).values():
+            # data-model axioms are only added where their record sort occurs (they would otherwise burden
+            # every satisfiability search with quantifiers over an unrelated sort)
+            if not any(t in mentioned for t in ax.types.values()):
+                continue
             env = {}
             bound = []
             for n, tn in ax.types.items():
